@@ -401,6 +401,22 @@ func checkC04(c C04Case) error {
 	if err := writersAgree(mk, "main", ctx, r); err != nil {
 		return fmt.Errorf("%v; source %s", err, q(src))
 	}
+	// ... and come out of a template that went through the compiled form
+	rc := guard(func() (string, error) {
+		data, err := twig.SerializeCompiledTemplate(&twig.CompiledTemplate{Name: "main", Source: src, LastModified: 1700000000, CompileTime: 1700000001})
+		if err != nil {
+			return "", err
+		}
+		e2 := twig.New()
+		NewSpies().Install(e2)
+		if err := e2.LoadFromCompiledData(data); err != nil {
+			return "", err
+		}
+		return e2.Render("main", ctx)
+	})
+	if rc.Failed() || rc.Out != wantS {
+		return fmt.Errorf("serialised as a compiled template and loaded into a fresh engine the output is %v, want %s; source %s", rc, q(wantS), q(src))
+	}
 	// (2) verbatim bodies with tag syntax: same output under three contexts, no context
 	// data, no evaluation, and the rest of the template still exact
 	if hasVerbatimTags(segs) {
